@@ -1,6 +1,6 @@
-(* C11 extraction unit: the oracle of theorems (g), (h), (i) of Properties/C11.v, run on the implementation's tokens and
+(* C11 extraction unit: the oracle of theorems (g), (h), (i), (h'), (k) of Properties/C11.v, run on the implementation's tokens and
    events.  ExtrOcamlBasic only. *)
 From Coq Require Import List NArith ZArith Bool.
 From Coq Require Import ExtrOcamlBasic.
 Require Import Parser Depth.
-Extraction "model.ml" c11_oracle c11_measures.
+Extraction "model.ml" c11_oracle c11_measures c11_bounds.
